@@ -609,6 +609,272 @@ def _shrink_tree(t, st, har, orc):
     return cur, d
 
 
+# ------------------------------------------------------------------ stage T: the FOAM text form
+
+FM_TOK = re.compile(rb'\(|\)|"(?:\\.|[^"\\])*"|\|(?:\\.|[^|\\])*\||;[^\n]*|(?:\\.|[^\s()"|;])+', re.S)
+
+
+def fm_tokens(text):
+    """Independent tokenizer of .fm text -> the driver's token spelling.  Floats keep their spelling as payload."""
+    out = []
+    for m in FM_TOK.finditer(text):
+        t = m.group(0)
+        if t[:1] == b";":
+            continue
+        if t in (b"(", b")"):
+            out.append(t.decode())
+        elif t[:1] == b'"':
+            out.append("s" + hexb(re.sub(rb"\\(.)", rb"\1", t[1:-1], flags=re.S)))
+        elif t[:1] == b"|":
+            out.append("y" + hexb(re.sub(rb"\\(.)", rb"\1", t[1:-1], flags=re.S)))
+        elif re.match(rb"^[-+]?\d+$", t):
+            out.append("i" + hx(int(t)))
+        elif re.match(rb"^[-+]?(\d+\.\d*|\.\d+|\d+)([eEdDfFsSlL][-+]?\d+)?$", t) and re.search(rb"[.eEdDfFsSlL]", t):
+            out.append(("f" if re.search(rb"[sSfF]", t) else "d") + hexb(t))      # marker s/f: single float
+        else:
+            out.append("y" + hexb(re.sub(rb"\\(.)", rb"\1", t, flags=re.S)))
+    return out
+
+
+class TextGen(TreeGen):
+    """Trees for the text writer: foamToSExpr0 walks Unit / Prog through their struct fields, so these have
+    the shape the compiler gives them (formats, globals, constants; params, locals, fluids, levels, body) and
+    carry variable references inside and outside the declared ranges (never at an index C reads out of bounds)."""
+
+    def __init__(self, rng, info, xsf, xdf):
+        super().__init__(rng, info, xsf, xdf)
+        # Lex / EElt index the format vectors without (complete) bounds checks: only made by ref()
+        drop = {info["tags"]["FOAM_Unit"], info["tags"]["FOAM_Lex"], info["tags"]["FOAM_EElt"]}
+        self.tags = [t for t in self.tags if t not in drop]
+        self.leafs = [t for t in self.leafs if t not in drop]
+        self.nfmt_decls = []
+
+    def ident(self):
+        r = self.r
+        return bytes(r.choice(b"abcxyzFOO_<>=+-*/!?%~^&09#.:'|\\\" ") for _ in range(r.choice([0, 1, 1, 2, 5, 12])))
+
+    def decl(self, glob):
+        r, t = self.r, self.t
+        a = [("i", r.randrange(0, len(self.rows))), ("s", self.ident()), ("i", r.choice([-1, -1, 0, 7, 1 << 20])), ("i", r.choice([0, 4, 5, 300]))]
+        if glob:
+            return (t["FOAM_GDecl"], a + [("i", r.choice([0, 1])), ("i", r.randrange(0, self.nproto))])
+        return (t["FOAM_Decl"], a)
+
+    def ddecl(self, n, glob=False):
+        return (self.t["FOAM_DDecl"], [("i", self.r.randrange(0, 12))] + [("n", self.decl(glob)) for _ in range(n)])
+
+    def ref(self):
+        """a variable reference"""
+        r, t = self.r, self.t
+        k = r.choice(["Par", "Loc", "Glo", "Const", "Lex", "EElt", "other"])
+        idx = r.choice([0, 1, 2, 3, 5, 9, 40])
+        if k in ("Par", "Loc", "Glo", "Const"):
+            return (t["FOAM_" + k], [("i", idx)])
+        if k == "Lex":
+            lvl = r.randrange(0, max(1, self.nlevels)) if r.random() < 0.8 else self.nlevels + 50
+            f = self.levels[lvl] if lvl < self.nlevels else 0
+            j = idx if idx != self.nfmt_decls[f] else idx + 1          # argv[declc] would be read out of bounds
+            return (t["FOAM_Lex"], [("i", lvl), ("i", j)])
+        if k == "EElt":
+            f = r.randrange(0, len(self.nfmt_decls))
+            if self.nfmt_decls[f] == 0:
+                return (t["FOAM_Loc"], [("i", idx)])
+            return (t["FOAM_EElt"], [("i", f), ("n", (t["FOAM_Loc"], [("i", 0)])), ("i", 0), ("i", r.randrange(0, self.nfmt_decls[f]))])
+        return self.node(1, 0, False)
+
+    def prog(self, depth=2):
+        r, t = self.r, self.t
+        self.levels = [r.randrange(0, len(self.nfmt_decls)) for _ in range(r.choice([1, 1, 2, 3]))]
+        self.nlevels = len(self.levels)
+        args = [("i", 0), ("i", r.choice([0, 2, 300])), ("i", r.randrange(0, len(self.rows))), ("i", r.choice([0, 4, 300]))]
+        args += [("i", self.pick_int("w")) for _ in range(4)]
+        args.append(("n", self.ddecl(r.choice([0, 1, 3]))))
+        args.append(("n", self.ddecl(r.choice([0, 2, 4]))))
+        args.append(("n", (t["FOAM_DFluid"], [])))
+        args.append(("n", (t["FOAM_DEnv"], [("i", x) for x in self.levels])))
+        args.append(("n", (t["FOAM_Seq"], [("n", self.ref()) for _ in range(r.choice([1, 3, 6]))])))
+        return (t["FOAM_Prog"], args)
+
+    def unit(self):
+        r, t = self.r, self.t
+        nf = r.choice([2, 3, 5])
+        self.nfmt_decls = [r.choice([0, 1, 2, 4]) for _ in range(nf)]
+        fmts = [self.ddecl(self.nfmt_decls[0], glob=True)] + [self.ddecl(k) for k in self.nfmt_decls[1:]]
+        defs = []
+        for _ in range(r.choice([1, 2, 3])):
+            lhs = (t["FOAM_" + r.choice(["Glo", "Const"])], [("i", r.choice([0, 1, 2, 7]))])
+            defs.append(("n", (t["FOAM_Def"], [("n", lhs), ("n", self.prog())])))
+        defs.append(("n", (t["FOAM_Def"], [("n", (t["FOAM_Loc"], [("i", 0)])), ("n", self.node(1, 0, False))])))
+        return (t["FOAM_Unit"], [("n", (t["FOAM_DFmt"], [("n", f) for f in fmts])), ("n", (t["FOAM_DDef"], defs))])
+
+    def tree(self):
+        if self.r.random() < 0.45:
+            return self.unit()
+        return self.node(self.r.choice([0, 1, 2, 3]), 0, False)
+
+
+def _norm_float_tokens(toks):
+    return [("F" if t[0] in "fd" else t) for t in toks]
+
+
+def stage_text(rep, tier, info, drv, har):
+    """extracted wr versus foamWrSExpr on generated trees (+ the concrete oracle: every integer field of the
+    tree must appear with its full value in the text); model rd/wr versus the real reader on real .fm files."""
+    rng = C.rng("C05/text")
+    orc = Oracle(info)
+    if drv.ask("tparams") != "1":
+        rep.violation("name tables of the current foam.c do not read back as written (text_params_ok fails)", {"kind": "tparams"}, no_input=True)
+        return {}
+    xsf, xdf = _float_images(har, info, True), _float_images(har, info, False)
+    gen = TextGen(rng, info, xsf, xdf)
+    n = 400 if tier == "quick" else 6000
+    st = {"trees": 0, "wf_text": 0, "tokens": 0, "fm_files": 0, "fm_tokens": 0}
+    seen = set()
+    fixed = [(info["tags"]["FOAM_SInt"], [("i", v)]) for v in (1 << 32, -(1 << 32) - 1, (1 << 63) - 1, -(1 << 63), 1 << 40)]
+    tg = info["tags"]
+    fixed.append((tg["FOAM_Prog"], [("i", 1 << 33), ("i", 3), ("i", 5), ("i", 4), ("i", 1 << 35), ("i", -(1 << 40)), ("i", 7), ("i", 0),
+                                    ("n", (tg["FOAM_DDecl"], [("i", 2)])), ("n", (tg["FOAM_DDecl"], [("i", 3)])), ("n", (tg["FOAM_DFluid"], [])),
+                                    ("n", (tg["FOAM_DEnv"], [("i", 0)])), ("n", (tg["FOAM_Seq"], [("n", (tg["FOAM_Label"], [("i", 1 << 34)]))]))]))
+    for k in range(n + len(fixed)):
+        t = fixed[k] if k < len(fixed) else gen.tree()
+        if count_nodes(t) > 400:
+            continue
+        st["trees"] += 1
+        mt = " ".join(toks_of(t, False))
+        a = drv.ask("wr " + mt)
+        if a is None or a.startswith("ERR"):
+            rep.violation("correspondence C05/text: the extracted writer failed (%s)" % a, {"kind": "text-tree", "tree": mt}, no_input=True)
+            continue
+        head, mtoks = a.split(" | ", 1) if " | " in a else (a.rstrip(" |"), "")
+        hb = head.split()
+        c = har.ask("totext " + " ".join(toks_of(t, True)), timeout=20)
+        if c is None:
+            if "text-crash" not in seen:
+                seen.add("text-crash")
+                rep.violation("foamWrSExpr dies on a generated tree", {"kind": "text-tree", "tree": mt}, key="text:writer:crash")
+            continue
+        ctoks = fm_tokens(unhexb(c.strip()))
+        st["tokens"] += len(ctoks)
+        # ---- the property's own oracle on the implementation: the text holds every integer of the tree
+        want = _tree_ints(t, orc)
+        got = [unhx(x[1:]) for x in ctoks if x[0] == "i"]
+        if want != got:
+            k = next((k for k in range(min(len(want), len(got))) if want[k] != got[k]), min(len(want), len(got)))
+            key = "text:writer:integer-field"
+            if key not in seen:
+                seen.add(key)
+                rep.violation(".fm text of a tree does not hold an integer field with its value: %s written as %s" % (
+                    want[k] if k < len(want) else None, got[k] if k < len(got) else None),
+                    {"kind": "text-tree", "tree": mt, "expected": str(want[k:k + 3]), "text": str(got[k:k + 3])}, key=key)
+            continue
+        if hb[0] == "1":
+            st["wf_text"] += 1
+            if hb[1:] != ["1", "1"]:
+                rep.violation("correspondence C05/text: rd(wr n) <> tcanon n or re-saving differs in the extracted model", {"kind": "text-tree", "tree": mt, "flags": hb}, no_input=True)
+            if _norm_float_tokens(mtoks.split()) != _norm_float_tokens(ctoks):
+                if "text-model" not in seen:
+                    seen.add("text-model")
+                    rep.violation("correspondence C05/text no longer checks: extracted wr and foamWrSExpr give different tokens",
+                                  {"kind": "text-tree", "tree": mt, "model": mtoks[:300], "c": " ".join(ctoks)[:300]}, no_input=True)
+    # ---- the spelling of atoms: extracted pr_int / pr_str versus the characters sxiWrite prints
+    tg = info["tags"]
+    atoms = [("i", v) for v in (0, 7, -1, 10, 99, 100, 255, (1 << 31) - 1, -(1 << 31), 1 << 32, (1 << 63) - 1, -(1 << 63),
+                                 12345678901234567, -98765432109876543)]
+    atoms += [("b", v) for v in ((1 << 64), -(1 << 64) - 1, 10 ** 40, -(10 ** 77) + 1, (1 << 200) + 12345)]
+    atoms += [("s", x) for x in (b"", b"a", b'q"q', b"back\\slash", b'"\\"\\\\', b"tab\there nl\n", bytes(range(1, 48)), b"\xe9\xff")]
+    st["atoms"] = 0
+    for kind, v in atoms:
+        if kind == "s":
+            tree = (tg["FOAM_Unimp"], [("s", v)])
+            a = drv.ask("lex s" + hexb(v))
+        elif kind == "b":
+            tree = (tg["FOAM_BInt"], [("b", v)])
+            a = drv.ask("lex i" + hx(v))
+        else:
+            tree = (tg["FOAM_SInt"], [("i", v)])
+            a = drv.ask("lex i" + hx(v))
+        c = har.ask("totext " + " ".join(toks_of(tree, True)), timeout=20)
+        st["atoms"] += 1
+        if a is None or c is None or a.split()[1] != "1":
+            rep.violation("correspondence C05/text: atom spelling could not be compared (%s / %s)" % (a, c and c[:40]),
+                          {"kind": "atom", "value": str(v)}, no_input=True)
+            continue
+        text = unhexb(c.strip())
+        mine = unhexb(a.split()[0])
+        m = re.match(rb"^\((\w+)\s+(.*)\)\s*$", text, re.S)
+        got = m.group(2) if m else None
+        # property side: the text must spell the value
+        if kind != "s" and (got is None or not re.match(rb"^-?\d+$", got) or int(got) != v):
+            rep.violation(".fm text spells the integer %d as %r" % (v, got), {"kind": "atom", "value": str(v), "text": repr(text)},
+                          key="text:writer:integer-spelling")
+        elif got != mine:
+            rep.violation("correspondence C05/text no longer checks: extracted atom spelling %r, sxiWrite %r" % (mine[:60], (got or b"")[:60]),
+                          {"kind": "atom", "value": str(v)}, no_input=True)
+    # ---- real .fm files: write them with the rebuilt compiler, read with model and with foamRdSExpr
+    exe = C.build_compiler()
+    work = C.scratch("c05fm")
+    srcs = [("g%d" % k, gen_program(rng, k)["whole"]) for k in range(2 if tier == "quick" else 6)]
+    srcs += [(os.path.basename(f)[:-3], open(f, errors="replace").read()) for f in (corpus_programs() if tier != "quick" else rng.sample(corpus_programs(), 4))]
+    srcs.append(("sintext", prog_sint_text()))
+    for name, text in srcs:
+        for q in (["-Q2"] if tier == "quick" else ["-Q0", "-Q2", "-Q9"]):
+            d = os.path.join(work, name + q)
+            os.makedirs(d, exist_ok=True)
+            open(os.path.join(d, name + ".as"), "w").write(text)
+            rc, out, err, _ = aldor(exe, [q, "-Ffm", name + ".as"], d)
+            fm = os.path.join(d, name + ".fm")
+            if rc != 0 or not os.path.exists(fm):
+                continue
+            raw = open(fm, "rb").read()
+            toks = fm_tokens(raw)
+            st["fm_files"] += 1
+            st["fm_tokens"] += len(toks)
+            a = drv.ask("rdwr " + " ".join(toks), timeout=300)
+            if a is None or a.startswith(("NONE", "ERR")):
+                rep.violation("correspondence C05/text: the model reader rejects a .fm file the compiler wrote (%s)" % (a or "died")[:40],
+                              {"kind": "fm-file", "program": text, "q": q}, no_input=True)
+                continue
+            flags, mtree, back = [x.strip() for x in a.split("|")]
+            if flags.split() != ["1", "1"]:
+                rep.violation("correspondence C05/text: a .fm file the compiler wrote is not well-formed for the model (%s)" % flags,
+                              {"kind": "fm-file", "program": text, "q": q}, no_input=True)
+            if back.split() != toks:
+                rep.violation("model: writing the tree read from a compiler-written .fm does not reproduce its tokens",
+                              {"kind": "fm-file", "program": text, "q": q}, no_input=True)
+            c = har.ask("frtext " + fm, timeout=120)
+            if c is None:
+                rep.violation("foamRdSExpr dies on a .fm file the compiler wrote", {"kind": "fm-file", "program": text, "q": q}, key="text:reader:crash")
+                continue
+            ct = parse_toks(c.split(), 0, True)[0]
+            mtr = parse_toks(mtree.split(), 0, False)[0]
+            if _strip_floats(ct) != _strip_floats(mtr):
+                rep.violation("correspondence C05/text no longer checks: model rd and foamRdSExpr read a .fm file to different trees",
+                              {"kind": "fm-file", "program": text, "q": q}, no_input=True)
+    return st
+
+
+def _tree_ints(t, orc):
+    """The integers foamToSExpr0 must print for a tree, in order (fields X F L b h w i n; 'w' of a Decl is -1)."""
+    tag, args = t
+    out = []
+    isd = orc.name(tag) == "Decl"          # the syme index of a Decl is written as -1; a GDecl keeps its rtype
+    for si, a in enumerate(args):
+        c = orc.letter(tag, si)
+        if a[0] == "n":
+            out += _tree_ints(a[1], orc)
+        elif a[0] == "b":
+            out.append(a[1])
+        elif a[0] == "i" and c in "XFLbhwi":
+            out.append(-1 if (isd and c == "w") else a[1])
+        elif a[0] == "i" and c == "t" and not (0 <= a[1] < len(orc.rows)):
+            out.append(a[1])
+    return out
+
+
+def _strip_floats(t):
+    return (t[0], [("F",) if a[0] in "fd" else (("n", _strip_floats(a[1])) if a[0] == "n" else a) for a in t[1]])
+
+
 # ------------------------------------------------------------------ stage B: real .ao files
 
 def ao_files():
@@ -1357,6 +1623,7 @@ def run(rep, tier):
         rep.violation("side conditions on the generated table fail in the extracted model: %s" % p, {"params": p}, no_input=True)
         return
     ts = stage_trees(rep, tier, info, drv, har)
+    tx = stage_text(rep, tier, info, drv, har)
     drv.close()
     har.close()
     t2 = time.time()
@@ -1372,7 +1639,7 @@ def run(rep, tier):
                      "extreme-constant programs + corpus tests x {-Q0,-Q2,-Q9} x {.ao,.fm,.al,split}",
                 samples=ts["samples"],
                 input_distribution={"trees": {k: ts[k] for k in ("trees", "wf", "not_wf", "nodes", "c_crash")},
-                                    "tree_mix": ts["dist"], "ao": ao, "e2e": e2},
+                                    "tree_mix": ts["dist"], "text": tx, "ao": ao, "e2e": e2},
                 stage_seconds={"generate+proof": round(t1 - t0, 1), "trees": round(t2 - t1, 1),
                                "ao": round(t3 - t2, 1), "e2e": round(t4 - t3, 1)})
     rep.assume(
